@@ -46,19 +46,26 @@ def dpDepth (is : List Instr) (k : Nat) : Nat :=
   maxList best
 
 def ks : List Nat := [0, 1, 2, 3, 4]
+def mixedKs : List Nat := [2, 4, 1, 3, 0, 3, 1, 4, 0]
+def bigFirstKs : List Nat := [7, 0, 5, 1, 2]
 
-def handle (inp out : Sexp) : CaseResult :=
-  match decodeProg inp with
-  | none => .bad s!"undecodable input {inp}"
-  | some is =>
-    let sizeTag := s!"len{min is.length 9}"
+private def fieldOf (fs : List Sexp) (name : String) : Option (List Nat) :=
+  match fs.find? (fun f => match f with | .list (.atom n :: _) => n == name | _ => false) with
+  | some f => natList f
+  | none => none
+
+/-- one block: the projected instruction list and what the implementation reported for it -/
+def handleBlock (is : List Instr) (out : Sexp) : CaseResult :=
+    let sizeTag := if is.length > 32 then "len33+" else s!"len{min is.length 9}"
     let kinds := (if is.any (fun i => i.isGate && i.qubits.length == 1) then ["g1"] else []) ++
       (if is.any (fun i => i.isGate && i.qubits.length == 2) then ["g2"] else []) ++
       (if is.any (fun i => i.isGate && i.qubits.length ≥ 3) then ["g3"] else []) ++
       (if is.any (fun i => !i.isGate && i.supported && i.qubits.length == 1) then ["measure"] else []) ++
       (if is.any (fun i => !i.isGate && i.supported && i.qubits.isEmpty) then ["classical"] else []) ++
+      (if is.any (fun i => !i.isGate && i.supported && i.qubits.length ≥ 2) then ["nongate-multi"] else []) ++
+      (if is.any (fun i => i.qubits.any (· ≥ 1000)) then ["var-or-placeholder"] else []) ++
       (if is.any (fun i => i.qubits.eraseDups.length != i.qubits.length) then ["repeated-qubit"] else [])
-    -- an empty program has no basic block: the public API cannot build the empty graph
+    -- an empty program has no basic block: the single-block route cannot build the empty graph
     if is.isEmpty && out == .list [.atom "noblock"] then
       { agree := true, specOk := true, nontrivial := false, tags := ["empty-noblock"] }
     else
@@ -69,7 +76,7 @@ def handle (inp out : Sexp) : CaseResult :=
         detail := s!"model=err impl={out}" }
     | some g =>
       match out with
-      | .list [.atom "ok", .list [.atom "n", n], edgesS, depthS, .list (.atom "paths" :: pathsS)] =>
+      | .list (.atom "ok" :: .list [.atom "n", n] :: edgesS :: depthS :: .list (.atom "paths" :: pathsS) :: extra) =>
         let implN := n.asNat?.getD 0
         let implEdges : List (Nat × Nat) := match edgesS with
           | .list (.atom "edges" :: es) => es.filterMap fun e => match e with
@@ -80,8 +87,17 @@ def handle (inp out : Sexp) : CaseResult :=
           | _ => []
         let implDepths := (natList depthS).getD []
         let fuel := fuelBound g
-        let modelDepths := ks.map fun k => gateDepth g k fuel
+        let md (k : Nat) : Option Nat := gateDepth g k fuel
+        let modelDepths := ks.map md
         let depthAgree := modelDepths == implDepths.map some && implDepths.length == ks.length
+        -- sequences of calls on one graph: descending, mixed with repeats, a large threshold first; and a
+        -- fresh graph per call — every answer must be the model's (and hence the same as ascending)
+        let seqOk (name : String) (order : List Nat) : Bool :=
+          match fieldOf extra name with
+          | some ds => ds.length == order.length && (order.zip ds).all fun (k, d) => md k == some d
+          | none => false
+        let seqAgree := seqOk "desc" ks.reverse && seqOk "mixed" mixedKs && seqOk "fresh" ks &&
+          seqOk "bigfirst" bigFirstKs
         -- raw path_fold results (multiset), when the implementation printed them
         let pathsAgree := (ks.zip pathsS).all fun (k, ps) =>
           match ps with
@@ -92,19 +108,56 @@ def handle (inp out : Sexp) : CaseResult :=
             | some impl, some model => sortNat model == impl
             | _, _ => false
           | _ => false
-        let agree := implN == is.length && implEdges == g.edges && depthAgree && pathsAgree
-        -- spec on the implementation's depths: proved checker (`Props.C29_checker`) …
-        let specProved := (ks.zip implDepths).all fun (k, d) => gateDepth g k fuel == some d
-        -- … and the independent dynamic program over the definition of a chain
-        let specDp := (ks.zip implDepths).all fun (k, d) => dpDepth is k == d
-        let specOk := specProved && specDp && implDepths.length == ks.length
+        let agree := implN == is.length && implEdges == g.edges && depthAgree && pathsAgree && seqAgree
+        -- spec on EVERY depth the implementation returned (all call orders): proved checker
+        -- (`Props.C29_checker`) and the independent dynamic program over the definition of a chain
+        let allAnswers : List (Nat × Nat) :=
+          ks.zip implDepths ++ ks.reverse.zip ((fieldOf extra "desc").getD []) ++
+          mixedKs.zip ((fieldOf extra "mixed").getD []) ++ ks.zip ((fieldOf extra "fresh").getD []) ++
+          bigFirstKs.zip ((fieldOf extra "bigfirst").getD [])
+        let expected := ks.length * 3 + mixedKs.length + bigFirstKs.length
+        let specProved := allAnswers.all fun (k, d) => md k == some d
+        let specDp := allAnswers.all fun (k, d) => dpDepth is k == d
+        let specOk := specProved && specDp && allAnswers.length == expected
         let d1 := implDepths.getD 1 0
         { agree := agree, specOk := specOk, nontrivial := !g.edges.isEmpty,
           tags := [sizeTag, s!"edges{min g.edges.length 9}", s!"depth{min d1 9}"] ++ kinds ++
             (if g.edges.eraseDups.length != g.edges.length then ["parallel-edges"] else []),
-          detail := s!"model n={is.length} edges={g.edges} depths={modelDepths} dp={ks.map (dpDepth is)} impl={out}" }
+          detail := s!"model n={is.length} edges={g.edges} depths={modelDepths} big={bigFirstKs.map md} dp={ks.map (dpDepth is)} impl={out}" }
       | _ => { agree := false, specOk := false, nontrivial := true, tags := ["impl-not-ok", sizeTag],
                detail := s!"model=ok impl={out}" }
+
+def combine (rs : List CaseResult) (extraTags : List String) : CaseResult :=
+  { agree := rs.all (·.agree), specOk := rs.all (·.specOk), nontrivial := rs.any (·.nontrivial),
+    tags := extraTags ++ (rs.flatMap (·.tags)).eraseDups,
+    detail := " || ".intercalate (rs.map (·.detail)) }
+
+def handle (inp out : Sexp) : CaseResult :=
+  match inp with
+  | .list [.atom "multi", pa, pb] =>
+    match decodeProg pa, decodeProg pb, out with
+    | some a, some b, .list (.atom "multi" :: blks) =>
+      let blocks : List (Nat × Sexp) := blks.filterMap fun bl => match bl with
+        | .list [.atom "blk", n, o] => n.asNat?.map fun n => (n, o)
+        | _ => none
+      -- `A; LABEL @l; B` has the blocks [A, B]; when A is empty the label may start the first block
+      let expected : Option (List (List Instr)) :=
+        if blocks.length == 2 then some [a, b]
+        else if blocks.length == 1 && a.isEmpty then some [b]
+        else none
+      match expected with
+      | some progs =>
+        let lensOk := (progs.zip blocks).all fun (p, (n, _)) => p.length == n
+        let rs := (progs.zip blocks).map fun (p, (_, o)) => handleBlock p o
+        let r := combine rs ["multi-block"]
+        { r with agree := r.agree && lensOk && blocks.length == blks.length }
+      | none => { agree := false, specOk := true, nontrivial := true, tags := ["multi-block", "block-structure"],
+                  detail := s!"unexpected block structure {out}" }
+    | _, _, _ => .bad s!"undecodable multi case {inp} {out}"
+  | _ =>
+    match decodeProg inp with
+    | none => .bad s!"undecodable input {inp}"
+    | some is => handleBlock is out
 
 end QV.C29
 
